@@ -476,10 +476,40 @@ func hygPlainWriters(pops []wop, bops []fop) int {
 	return 2
 }
 
+// ropsOf converts the string ops of the sweep (runReaderX format) into rops.
+func ropsOf(ops []string) []rop {
+	var l []rop
+	for _, o := range ops {
+		f := strings.Split(o, ":")
+		w := 0
+		if len(f) > 1 {
+			fmt.Sscanf(f[1], "%d", &w)
+		}
+		k := f[0][0]
+		if k == 'S' {
+			k = 's'
+		}
+		l = append(l, rop{k: k, w: w})
+	}
+	return l
+}
+
 // ---------------------------------------------------------------- driver
 func hygiene(seed uint64, n int) int {
 	r := hx.NewRng(seed ^ 0x4c9a11)
 	evals := 0
+	// the alignment x size-class sweep (sweep.go) under every oracle of this file
+	sr := hx.NewRng(seed ^ 0x5eeb)
+	for _, c := range sweepReaderCases(sr) {
+		evals += hygEBSPReader(c.esc, ropsOf(c.ops))
+	}
+	for _, ops := range sweepWriterCases(sr) {
+		evals += hygEBSPWriter(ops)
+	}
+	for _, fops := range sweepFixedCases(sr) {
+		evals += hygFixedWriter(200, fops)
+		evals += hygFixedWriter(9, fops)
+	}
 	for i := 0; i < n; i++ {
 		// a written stream read back with the matching ops, look-aheads and byte reads mixed in
 		all := genWops(r)
